@@ -251,3 +251,25 @@ test: true
 		}
 	}
 }
+
+#[cfg(feature = "verif")]
+pub(super) fn verif_events<R: Read>(
+	reader: R,
+	stop_after: Option<usize>,
+) -> (Vec<(u32, u64, u64)>, Option<String>) {
+	let mut out = vec![];
+	let mut parser = Parser::new(reader);
+	while stop_after.map_or(true, |n| out.len() < n) {
+		match parser.next_event() {
+			Ok(event) => {
+				let ty = event.event_type();
+				out.push((ty as u32, event.start_offset(), event.end_offset()));
+				if ty == YAML_STREAM_END_EVENT {
+					break;
+				}
+			}
+			Err(err) => return (out, Some(err.to_string())),
+		}
+	}
+	(out, None)
+}
